@@ -69,6 +69,16 @@ class Run(Machine):
         self.add_pc(options[taken][0])
         return options[taken][1]
 
+    def choose_among(self, options):
+        """like choose, but the options need not be exhaustive: the input is first constrained to their disjunction"""
+        if self.dpos < len(self.decisions):
+            return self.choose(options)
+        dis = z3.Or(*[c for c, p in options]) if len(options) > 1 else options[0][0]
+        ok, model = self.solver.check([dis])
+        if not ok: raise Unsupported('no applicable option')
+        self.model = model
+        return self.choose(options)
+
     def fresh_bool(self, tag='nd'):
         v = z3.Bool(f'{tag}{self.nd}'); self.nd += 1; self.nd_vars.append(v)
         return Sym(v)
